@@ -203,5 +203,13 @@ def explore(ctx):
         'model_outcomes': kinds, 'unmodelled': kinds.get('unm', 0),
         'model_vs_impl_disagreements': sum(1 for r in results if r['corr']),
     }
+    # batching on a live terminal: the input arrives in timed bursts and every refresh re-aggregates the table so far;
+    # the final table must be the one the whole input gives in one piece
+    from props import c16
+    live = c16.run_live(ctx, c16.CHAINED[2:] + c16.QUERIES[:2], 10 if quick else 150)
+    failures += live['failures']
+    cov['live_terminal_cases'] = live['coverage']['evaluations']
+    cov['evaluations'] += live['coverage']['evaluations']
+    cov['rule'] += '; the same aggregations and chains of them fed in timed bursts to a live terminal, final table against the one-piece result'
     cov['known_classes_present'] = sorted(known_classes)
     return {'coverage': cov, 'failures': failures, 'known_lines': known_lines}
